@@ -1,11 +1,13 @@
 #!/bin/bash
-# usage: tools/seedtest.sh <patch.diff> <prop> [extra gosmt args...]  -- apply a seeded change, run the check, revert
+# usage: tools/seedtest.sh <patch.diff> <prop> [extra gosmt args...]
+# applies a seeded change in a scratch worktree (outside /repo and /verif), runs the check against it, removes the worktree
 P="$1"; shift; PROP="$1"; shift
-cd /repo || exit 3
-if ! git diff --quiet; then echo "repo dirty"; exit 3; fi
-git apply "$P" || { echo "patch does not apply"; exit 3; }
+WT=$(mktemp -d /tmp/wt-seed-XXXXXX)
+rmdir "$WT"
+git -C /repo worktree add -q --detach "$WT" HEAD || exit 3
+( cd "$WT" && git apply "$P" ) || { echo "patch does not apply"; git -C /repo worktree remove --force "$WT"; exit 3; }
 cd /verif
-./bin/gosmt -prop "$PROP" -no-evidence "$@" 2>&1 | grep -v "^INCONCLUSIVE\|^\[" | tail -6
+./bin/gosmt -repo "$WT" -prop "$PROP" -no-evidence "$@" 2>&1 | grep -v "^INCONCLUSIVE\|^\[" | tail -6
 rc=${PIPESTATUS[0]}
-cd /repo && git checkout -- . && git status --short
+git -C /repo worktree remove --force "$WT"
 echo "exit=$rc"
